@@ -16,8 +16,8 @@ func Bit(s int) Mask { return 1 << uint(s) }
 // branch-edge events, with repository callees summarised as relations on states.
 type TSpec struct {
 	N        int
-	Instr    func(ins ssa.Instruction) []Mask        // nil: not an event
-	Edge     func(b *ssa.BasicBlock, si int) []Mask  // nil: identity
+	Instr    func(ins ssa.Instruction) []Mask       // nil: not an event
+	Edge     func(b *ssa.BasicBlock, si int) []Mask // nil: identity
 	Callees  func(call ssa.CallInstruction) []*ssa.Function
 	NoReturn func(ins ssa.Instruction) bool
 }
